@@ -393,6 +393,10 @@ func Run(seed int64, n int, outDir string) error {
 			}
 		}
 	}
+	// transfer-ban scenarios (fixed histories, every run)
+	if err := runBan(seed, cf, st); err != nil {
+		return err
+	}
 	if _, err := cf.Write(outDir, "cases", 500); err != nil {
 		return err
 	}
